@@ -63,3 +63,19 @@ Definition node_model : node_case -> node_obs := node_model_with (fun _ => check
 Definition node_model_old : node_case -> node_obs := node_model_with check_onchain_old.
 Definition check_node (c : node_case) : bool := beq (node_model c) (snd c).
 Definition check_node_old (c : node_case) : bool := beq (node_model_old c) (snd c).
+
+(** handler-level case: a SignWithdrawal request through the wire codec and RootHandler::handle.
+    The transaction is the view the handler derives from the request (values and scripts of the
+    previous outputs, segwit flags, output paths).
+    observed: (0 reply / 2 error / 3 panic, the indices the approver was asked about, control after) *)
+Definition handler_obs : Type := N * option (list N) * vcobs.
+Definition handler_case : Type :=
+  (list CommitmentPolicy.rule * opolicy) * (vcobs * N * nodecase * bool) * handler_obs.
+Definition handler_model (c : handler_case) : handler_obs :=
+  let '((rules, pol), (c0, now, nc, answer), _) := c in
+  let warn := owarn_of rules in
+  let '(r, _) := check_onchain warn pol (vc_of c0) now nc in
+  let '(h, c1) := handle_proposed warn pol (fun _ => answer) (vc_of c0) now nc in
+  (match h with HApproved => 0 | HPanic => 3 | _ => 2 end,
+   match r with CUnknown u => Some u | _ => None end, obs_of c1).
+Definition check_handler (c : handler_case) : bool := beq (handler_model c) (snd c).
